@@ -1,1 +1,290 @@
-//! reference model stub (to be written)
+//! M-ROFF: a reader for the subset of roff input that `anstyle-roff` (through
+//! the `roff` crate) is expected to emit, written from groff(7)/roff(7):
+//!
+//!   * a line whose first character is the control character `.` or the
+//!     no-break control character `'` is a *control line* (request or macro
+//!     call): optional blanks, a name, blank-separated arguments, an argument
+//!     in double quotes may contain blanks (`""` inside quotes is a quote);
+//!   * every other line is a *text line*; inside it `\` introduces an escape.
+//!     Escapes understood (everything else is an error, because an escape the
+//!     reader does not know could do anything):
+//!       `\\` and `\e`  a backslash        `\-`  a minus / hyphen
+//!       `\&`           zero-width non-printing character (protects a leading
+//!                      `.` or `'`, recorded so the caller can see it)
+//!       `\fB` `\fI` `\fR` `\fP`, `\f1`..`\f3`, `\f(XX`, `\f[name]`  font change
+//!     a `\` as the last character of a line is an error (line continuation).
+//!   * the font selected by `\f` persists over line ends until changed.
+//!
+//! Independent of the code under test and of the `roff` crate.
+
+#[derive(Clone, Copy, Debug, PartialEq, Eq, Hash)]
+pub enum Font {
+    Roman,
+    Bold,
+    Italic,
+    BoldItalic,
+}
+
+#[derive(Clone, Debug, PartialEq, Eq)]
+pub enum Line {
+    Control {
+        /// `.` or `'`
+        cc: char,
+        name: String,
+        args: Vec<String>,
+    },
+    /// the characters of a text line with the font each is set in
+    Text(Vec<(Font, char)>),
+}
+
+/// Reader state that survives line ends.
+#[derive(Clone, Debug)]
+pub struct Reader {
+    pub font: Font,
+    prev_font: Font,
+}
+
+impl Default for Reader {
+    fn default() -> Self {
+        Reader { font: Font::Roman, prev_font: Font::Roman }
+    }
+}
+
+fn font_by_name(n: &str) -> Option<Font> {
+    match n {
+        "R" | "1" => Some(Font::Roman),
+        "I" | "2" => Some(Font::Italic),
+        "B" | "3" => Some(Font::Bold),
+        "BI" | "4" => Some(Font::BoldItalic),
+        _ => None,
+    }
+}
+
+impl Reader {
+    fn set_font(&mut self, name: &str) -> Result<(), String> {
+        if name == "P" || name.is_empty() {
+            std::mem::swap(&mut self.font, &mut self.prev_font);
+            return Ok(());
+        }
+        match font_by_name(name) {
+            Some(f) => {
+                self.prev_font = self.font;
+                self.font = f;
+                Ok(())
+            }
+            None => Err(format!("font escape selects unknown font {name:?}")),
+        }
+    }
+
+    pub fn control_line(&self, line: &str) -> Result<Line, String> {
+        let mut it = line.chars();
+        let cc = it.next().unwrap();
+        let rest: Vec<char> = it.collect();
+        let mut i = 0;
+        while i < rest.len() && (rest[i] == ' ' || rest[i] == '\t') {
+            i += 1;
+        }
+        let st = i;
+        while i < rest.len() && rest[i] != ' ' && rest[i] != '\t' {
+            i += 1;
+        }
+        let name: String = rest[st..i].iter().collect();
+        let mut args = vec![];
+        loop {
+            while i < rest.len() && rest[i] == ' ' {
+                i += 1;
+            }
+            if i >= rest.len() {
+                break;
+            }
+            let mut a = String::new();
+            if rest[i] == '"' {
+                i += 1;
+                loop {
+                    if i >= rest.len() {
+                        break; // an unterminated quoted argument extends to the end of the line
+                    }
+                    if rest[i] == '"' {
+                        if rest.get(i + 1) == Some(&'"') {
+                            a.push('"');
+                            i += 2;
+                            continue;
+                        }
+                        i += 1;
+                        break;
+                    }
+                    a.push(rest[i]);
+                    i += 1;
+                }
+            } else {
+                while i < rest.len() && rest[i] != ' ' {
+                    a.push(rest[i]);
+                    i += 1;
+                }
+            }
+            args.push(a);
+        }
+        Ok(Line::Control { cc, name, args })
+    }
+
+    pub fn text_line(&mut self, line: &str) -> Result<(Vec<(Font, char)>, usize), String> {
+        let cs: Vec<char> = line.chars().collect();
+        let mut out = vec![];
+        let mut zero_width = 0usize;
+        let mut i = 0;
+        while i < cs.len() {
+            let c = cs[i];
+            if c != '\\' {
+                out.push((self.font, c));
+                i += 1;
+                continue;
+            }
+            let Some(&e) = cs.get(i + 1) else {
+                return Err("backslash at the end of a line (line continuation)".into());
+            };
+            match e {
+                '\\' | 'e' => {
+                    out.push((self.font, '\\'));
+                    i += 2;
+                }
+                '-' => {
+                    out.push((self.font, '-'));
+                    i += 2;
+                }
+                '&' => {
+                    zero_width += 1;
+                    i += 2;
+                }
+                'f' => match cs.get(i + 2) {
+                    Some('(') => {
+                        if cs.len() < i + 5 {
+                            return Err("truncated \\f( escape".into());
+                        }
+                        let n: String = cs[i + 3..i + 5].iter().collect();
+                        self.set_font(&n)?;
+                        i += 5;
+                    }
+                    Some('[') => {
+                        let Some(close) = cs[i + 3..].iter().position(|&c| c == ']') else {
+                            return Err("unterminated \\f[ escape".into());
+                        };
+                        let n: String = cs[i + 3..i + 3 + close].iter().collect();
+                        self.set_font(&n)?;
+                        i += 3 + close + 1;
+                    }
+                    Some(&n) => {
+                        self.set_font(&n.to_string())?;
+                        i += 3;
+                    }
+                    None => return Err("truncated \\f escape".into()),
+                },
+                other => return Err(format!("escape \\{other} is not one the renderer may emit")),
+            }
+        }
+        Ok((out, zero_width))
+    }
+}
+
+/// Read a whole document.  The document must end with a newline (every roff input line is
+/// newline terminated); the empty document is allowed.
+pub fn read(doc: &str) -> Result<Vec<Line>, String> {
+    if doc.is_empty() {
+        return Ok(vec![]);
+    }
+    let Some(body) = doc.strip_suffix('\n') else {
+        return Err("document does not end with a newline".into());
+    };
+    let mut rd = Reader::default();
+    let mut out = vec![];
+    for (n, line) in body.split('\n').enumerate() {
+        let l = if line.starts_with('.') || line.starts_with('\'') {
+            rd.control_line(line)
+        } else {
+            rd.text_line(line).map(|(t, _)| Line::Text(t))
+        };
+        out.push(l.map_err(|m| format!("line {}: {m}: {line:?}", n + 1))?);
+    }
+    Ok(out)
+}
+
+/// A block of the document: the control lines that precede a stretch of text lines, and
+/// that text (lines joined by LF; the LF that terminates the last text line is the line end
+/// of the roff source, not text).
+#[derive(Clone, Debug, PartialEq, Eq, Default)]
+pub struct Block {
+    pub requests: Vec<(String, Vec<String>)>,
+    pub text: Vec<(Font, char)>,
+    pub has_text: bool,
+}
+
+impl Block {
+    pub fn text_string(&self) -> String {
+        self.text.iter().map(|&(_, c)| c).collect()
+    }
+}
+
+pub fn blocks(lines: &[Line]) -> Vec<Block> {
+    let mut out: Vec<Block> = vec![];
+    let mut cur = Block::default();
+    for l in lines {
+        match l {
+            Line::Control { name, args, .. } => {
+                if cur.has_text {
+                    out.push(std::mem::take(&mut cur));
+                }
+                cur.requests.push((name.clone(), args.clone()));
+            }
+            Line::Text(t) => {
+                if cur.has_text {
+                    let f = cur.text.last().map(|&(f, _)| f).or(t.first().map(|&(f, _)| f)).unwrap_or(Font::Roman);
+                    cur.text.push((f, '\n'));
+                }
+                cur.has_text = true;
+                cur.text.extend(t.iter().copied());
+            }
+        }
+    }
+    if cur.has_text || !cur.requests.is_empty() {
+        out.push(cur);
+    }
+    out
+}
+
+#[cfg(test)]
+mod tests {
+    use super::*;
+
+    #[test]
+    fn control_and_text() {
+        let l = read(".gcolor red\n.fcolor default\n\\fBa\\-b\\\\\\fR\n").unwrap();
+        assert_eq!(l[0], Line::Control { cc: '.', name: "gcolor".into(), args: vec!["red".into()] });
+        assert_eq!(
+            l[2],
+            Line::Text(vec![(Font::Bold, 'a'), (Font::Bold, '-'), (Font::Bold, 'b'), (Font::Bold, '\\')])
+        );
+        let b = blocks(&l);
+        assert_eq!(b.len(), 1);
+        assert_eq!(b[0].text_string(), "a-b\\");
+    }
+
+    #[test]
+    fn protects_and_multiline() {
+        let l = read("\\&.x\n\\&'y\n\n").unwrap();
+        let b = blocks(&l);
+        assert_eq!(b[0].text_string(), ".x\n'y\n");
+        let l = read("\\fIa\n\\fR\n.defcolor hex_#010203 rgb #010203\n.x \"a b\" c\n").unwrap();
+        let b = blocks(&l);
+        assert_eq!(b[0].text, vec![(Font::Italic, 'a'), (Font::Italic, '\n')]);
+        assert_eq!(b[1].requests[1], ("x".to_string(), vec!["a b".to_string(), "c".to_string()]));
+    }
+
+    #[test]
+    fn rejects() {
+        assert!(read("a").is_err());
+        assert!(read("a\\\n").is_err());
+        assert!(read("a\\n(.g\n").is_err());
+        assert!(read("\\*(Aq\n").is_err());
+        assert!(read("\\fXa\n").is_err());
+        assert!(read("\\f").is_err());
+    }
+}
